@@ -115,6 +115,7 @@ type Gen struct {
 	curRefs   map[string]bool // labels referenced by the item under construction
 	pure      int             // >0: no effects may be generated
 	fieldFnOK int             // >0: a `_.Field` shorthand may be produced (argument of slice.Map / slice.Filter)
+	globals   []*varInfo      // top-level variables defined so far
 	inRhs     int             // >0: inside the right-hand side of a let (no local function definitions there)
 	fuel      int             // expression nodes left for the top-level function under construction
 	typeLabel map[string]string
